@@ -206,6 +206,117 @@ func TestReleaseOrder(t *testing.T) {
 	}
 }
 
+// TestReleaseArrival runs, in real time, an arrival against a completion in progress, for the queue (FIFO, LIFO),
+// blocking and deadline limiters and all three outcomes:
+//
+//	(a) "at-exit": the arrival is parked right after its failed attempt on the delegate (gate acq.exit); the holder
+//	    completes meanwhile (on this tree the queue limiter's unblock waits for the limiter mutex the arrival holds);
+//	    once the arrival is let go it must end up served - the release must not fall between its attempt and its
+//	    going to sleep (C10);
+//	(b) "in-release": the completion is parked before it gives the token back (gate rel.enter); a caller arrives,
+//	    finds the limit full and its context is cancelled: it returns refused although the release is still in
+//	    progress (C13: cfg.promptcancel), and the token is free for the next caller afterwards.
+func TestReleaseArrival(t *testing.T) {
+	w := newNdWriter(t, filepath.Join(outDir(t), "relarrival_trace.ndjson"))
+	defer w.close()
+	trace := 0
+	for rep := 0; rep < envInt("VERIF_N", 2); rep++ {
+		for _, kind := range []string{"queue-fifo", "queue-lifo", "blocking", "deadline"} {
+			for _, outcome := range []string{"success", "ignore", "dropped"} {
+				for _, variant := range []string{"at-exit", "in-release"} {
+					names := []string{"h", "a1", "a2"}
+					c := newController()
+					s := newScenario(t, c, names)
+					s.settle = func() { s.settleRealTime(3*time.Millisecond, 300*time.Millisecond) }
+					c.emit = s.ev
+					limiter.VerifPoint = nil
+					dl, busy, err := newDelegate(1, rep%2 == 1)
+					if err != nil {
+						t.Fatal(err)
+					}
+					gl := &GatedLimiter{c: c, inner: dl}
+					reg := newRecordingRegistry()
+					cfg := wrapCfg{Ctor: "release-arrival/" + variant + "/" + outcome, Limit: 1, Procs: names, PromptCancel: variant == "in-release"}
+					s.extra = func() J { return J{"busy": busy(), "gauge": int(dl.VerifInFlight()), "t": 0} }
+					switch kind {
+					case "queue-fifo", "queue-lifo":
+						o := limiter.OrderingFIFO
+						if kind == "queue-lifo" {
+							o = limiter.OrderingLIFO
+						}
+						s.lim = limiter.NewQueueBlockingLimiterFromConfig(gl, limiter.QueueLimiterConfig{Ordering: o, MaxBacklogSize: 4, MaxBacklogTimeout: -1, BacklogEvictDoneCtx: true, MetricRegistry: reg})
+						cfg.Kind, cfg.QMax, cfg.EvictCtx, cfg.Ordering, cfg.Expect = "queue", 4, true, kind[6:], kind[6:]
+						s.extra = func() J {
+							q, _ := reg.GaugeByID(core.MetricQueueSize)
+							return J{"busy": busy(), "gauge": int(dl.VerifInFlight()), "q": q, "t": 0}
+						}
+					case "deadline":
+						s.lim = limiter.NewDeadlineLimiter(gl, time.Now().Add(time.Hour), nil)
+						cfg.Kind, cfg.Deadline = "deadline", 1000000
+					default:
+						s.lim = limiter.NewBlockingLimiter(gl, 0, nil)
+						cfg.Kind = "blocking"
+					}
+					w.write(J{"ev": "Reset", "trace": trace, "cfg": cfg, "obs": s.observe()})
+					i := 0
+					do := func(st schedStep) bool {
+						if err := s.apply(st); err != nil {
+							t.Logf("trace %d: %v", trace, err)
+							return false
+						}
+						i++
+						w.write(J{"ev": "Step", "trace": trace, "i": i, "step": st, "evs": s.events(), "obs": s.observe()})
+						return true
+					}
+					enable := func(points ...string) {
+						c.mu.Lock()
+						c.enabled = map[string]bool{}
+						for _, p := range points {
+							c.enabled[p] = true
+						}
+						c.mu.Unlock()
+					}
+					do(schedStep{A: "start", P: "h", Call: "acquire"})
+					if variant == "at-exit" {
+						enable("acq.exit")
+						do(schedStep{A: "start", P: "a1", Call: "acquire"})
+						enable()
+						do(schedStep{A: "start", P: "h", Call: "release", Outcome: outcome})
+						do(schedStep{A: "pass", P: "a1", Gate: "acq.exit"})
+					} else {
+						enable("rel.enter")
+						do(schedStep{A: "start", P: "h", Call: "release", Outcome: outcome})
+						enable()
+						do(schedStep{A: "start", P: "a1", Call: "acquire"})
+						do(schedStep{A: "cancel", P: "a1"})
+						do(schedStep{A: "pass", P: "h", Gate: "rel.enter"})
+						do(schedStep{A: "start", P: "a2", Call: "acquire"})
+					}
+					for round := 0; round < 4; round++ {
+						progressed := false
+						for _, n := range names {
+							if s.procs[n].state == "granted" {
+								do(schedStep{A: "start", P: n, Call: "release", Outcome: outcome})
+								progressed = true
+							}
+						}
+						if !progressed {
+							break
+						}
+					}
+					w.write(J{"ev": "End", "trace": trace, "i": i + 1, "obs": s.observe()})
+					c.disableAll()
+					c.passAll()
+					for _, n := range names {
+						s.procs[n].cancel()
+					}
+					trace++
+				}
+			}
+		}
+	}
+}
+
 // TestUnblockRace runs, in real time, a second completion while the first completion's unblock() is parked
 // (holding the limiter mutex) at its k-th gate: on this tree the second completion's unblock blocks on the mutex
 // and serves the next waiter afterwards; a change that lets it skip or overtake must not strand a waiter with
